@@ -204,6 +204,11 @@ def scenario_check(rep, rng, pid, n, profile=None, keys=runner.ALL_KEYS, transfo
                 rep.sample({"stream": stream, "ops": [[lib.l1(a) for a in o.get("args", [])] for o in sc["ops"]],
                             "parser_options": [k for k, v in sc["cfg"]["opts"].items() if v],
                             "impl": [{k: o.get(k) for k in ("err", "ret", "active")} for o in g["ops"]][:2]})
+            if g.get("hang"):
+                rep.violation("%s: the implementation does not terminate on this history (%s); the model terminates by construction" % (pid, g["hang"]),
+                              {"kind": "non-termination", "property": pid, "theorems": theorem_names, "scenario": scenario_json(sc), "impl": g,
+                               "replay": "bin/check %s --replay <this file>" % pid})
+                return False
             if g.get("fatal"):
                 rep.violation("harness failure: " + g["fatal"], {"kind": "machinery", "scenario": scenario_json(sc), "fatal": g["fatal"]}, no_input=True)
                 return False
@@ -216,7 +221,7 @@ def scenario_check(rep, rng, pid, n, profile=None, keys=runner.ALL_KEYS, transfo
                 else:
                     def still_o(cands):
                         gg = runner.run_impl(cands)
-                        return [(not a.get("fatal")) and bool(oracle(c, a)) for c, a in zip(cands, gg)]
+                        return [(not a.get("fatal")) and (not a.get("hang")) and bool(oracle(c, a)) for c, a in zip(cands, gg)]
                     sc = shrink(sc, still_o, rounds=40, width=200)
                     g = runner.run_impl([sc])[0]
                     msg = oracle(sc, g) or msg
